@@ -521,8 +521,11 @@ func simConfig(sc *Scenario) simrt.Config {
 		PCTDepth: sc.Sim.PCTDepth, Drift: sc.Sim.Drift, AtomicAll: sc.Sim.AtomicAll, AtomicFiles: af,
 		Parallelism: sc.Cache.Parallelism, ShuffleMaps: sc.Sim.ShuffleMaps, PoolReuse: sc.Sim.PoolReuse,
 		PoolDrop: sc.Sim.PoolDrop, TraceRing: 0, StartNanos: sc.Sim.StartNanos,
+		Record: recordChoices || sc.UseChoices, Replay: sc.Choices, UseReplay: sc.UseChoices,
 	}
 }
+
+var recordChoices bool
 
 // runScenario executes sc under the kernel and returns everything observed.
 func runScenario(sc *Scenario, setup func(env *simEnv)) *RunData {
@@ -530,16 +533,7 @@ func runScenario(sc *Scenario, setup func(env *simEnv)) *RunData {
 		return r(sc)
 	}
 	rd := &RunData{Sc: sc, Snaps: map[string]*Snap{}, SnapAt: map[string]uint64{}, InFlight: make([]*Rec, len(sc.Clients)+1), ClientTask: make([]int, len(sc.Clients)+1)}
-	af := map[string]bool{}
-	for _, f := range sc.Sim.AtomicFiles {
-		af[f] = true
-	}
-	cfg := simrt.Config{
-		Seed: sc.Seed, MaxSteps: sc.Sim.MaxSteps, Sched: sc.Sim.Sched, SwitchPct: sc.Sim.SwitchPct,
-		PCTDepth: sc.Sim.PCTDepth, Drift: sc.Sim.Drift, AtomicAll: sc.Sim.AtomicAll, AtomicFiles: af,
-		Parallelism: sc.Cache.Parallelism, ShuffleMaps: sc.Sim.ShuffleMaps, PoolReuse: sc.Sim.PoolReuse,
-		PoolDrop: sc.Sim.PoolDrop, TraceRing: 0, StartNanos: sc.Sim.StartNanos,
-	}
+	cfg := simConfig(sc)
 	rd.Res = simrt.Run(cfg, func() {
 		api, err := buildCache(rd)
 		if err != nil {
